@@ -23,3 +23,6 @@ PROPS["C02"]["rule"] = PROPS["C02"]["rule"] + (
     " Stage favor (shared with C06), sjob lines: fresh-encoder jobs (job 0 at quality 0..9, any job at quality 0/1, empty prefixes, and quality 0/1 jobs whose buffer is too small) run through the REAL compress_part and through a recorded replica of its encoder calls; the model streamJob = compressPart over the stream machine with the recorded payload answers as oracle must return the same Ok(bytes)/Err (ties `observed` / `jobParams` / `streamJob` of BV/Model/StreamJob.lean, over which part_of_stream_model is stated).")
 PROPS["C02"]["trusted_base"] = PROPS["C02"]["trusted_base"] + [
     "BV/Model/StreamJob.lean (compress_part's loop over the stream machine; tied by the sjob lines of harness/src/favor.rs) and, through it, the stream model BV/Model/Stream.lean of C20/C13"]
+
+PROPS["C02"]["level_note"] = PROPS["C02"]["level_note"] + (
+    " The favor_cpu_efficiency branch (the shared match index built on the calling thread before the last job runs) has no panic site in BV/Model/Multi.lean; that omission is justified by BV.Props.C06Hasher.favor_branch_never_panics (C06's module: for the kinds of quality 2..9 the BulkStoreRange calls of the branch read inside the input and write inside the constructor's tables), for quality 10/11 (H10, opaque Store) only by the no-panic oracle of the runs.")
